@@ -23,7 +23,7 @@ pub fn property() -> Property {
             "tokio paused clock with auto-advance; ticks of the periodic reaper happen at creation + k * interval",
             "which survivor is kept is left open; an entry idle for exactly the timeout may go either way",
         ],
-        families: vec![(Box::new(PoolFam), 20_000, 160_000), (Box::new(crate::props::e2e::InUseFam), 16, 160), (Box::new(BurstFam), 40, 400)],
+        families: vec![(Box::new(PoolFam), 100_000, 2_000_000), (Box::new(crate::props::e2e::InUseFam), 16, 200), (Box::new(BurstFam), 40, 2_000)],
     }
 }
 
